@@ -1078,6 +1078,62 @@ def fam_read(ctx, rng):
     ctx.state(["read", kwargs_form, degrees_form, k])
 
 
+def fam_options_reused(ctx, rng):
+    """One reader-options dict kept by a script and handed to successive read_single calls (SAC sets of both byte
+    orders, text formats in between): every recording must still be read from its own files."""
+    import hvsrpy
+    k = int(rng.integers(2, 5))
+    opts = {"format": "SAC"} if rng.random() < 0.6 else {}
+    start = dict(opts)
+    CUR["fmt"] = "read_single() with one options dict"
+    with Scratch() as d:
+        first_bo = str(rng.choice(["<", ">"]))
+        seq = []
+        for i in range(k):
+            which = str(rng.choice(["sac", "sac", "sac", "saf", "minishark", "peer"])) if i else "sac"
+            n = int(rng.integers(10, 300))
+            if which == "sac":
+                bo = first_bo if i == 0 else ("<" if (first_bo == ">") == (i % 2 == 1) or rng.random() < 0.3 else ">")
+                fs_ = build_sac(ctx, rng, d, n, byteorder=bo, tag=f"o{i}")
+            else:
+                fs_ = build_any(ctx, rng, d, which, n, tag=f"o{i}")
+            if fs_ is None:
+                return
+            seq.append(fs_)
+        info = dict(fmt="read_single() with one options dict", formats=[s["fmt"] for s in seq], options_at_start=start)
+        ctx.describe(**info)
+        for i, s_ in enumerate(seq):
+            deg = pick_degrees(rng)
+            ctx.count("read_single_calls")
+            label = f"call {i} ({s_['fmt']}) with the options dict of the calls before: {opts!r}"
+            try:
+                rec = hvsrpy.read_single(s_["fnames"], obspy_read_kwargs=opts, degrees_from_north=deg)
+            except Exception as exc:
+                ctx.check(False, "reads-valid-files", f"read_single raised on a valid file set ({label}): {exc!r}",
+                          mechanism="options-dict-carries-state-between-reads", variant=label, explicit_degrees=deg, **info)
+                continue
+            ctx.check(True, "reads-valid-files")
+            if s_["exp"]["file_deg"] is None and deg is None:
+                continue
+            judge(ctx, rec, s_["exp"], deg, info, label)
+        ctx.count("sequences_with_one_options_dict")
+        # the same through read(): one dict for all recordings
+        obspy_only = [s_ for s_ in seq if s_["obspy_format"] == "SAC"]
+        if len(obspy_only) >= 2:
+            opts2 = dict(start)
+            try:
+                out = hvsrpy.read([s_["fnames"] for s_ in obspy_only], obspy_read_kwargs=opts2)
+            except Exception as exc:
+                ctx.check(False, "reads-valid-files", f"read() raised on valid SAC sets of mixed byte order sharing one options dict: {exc!r}",
+                          mechanism="options-dict-carries-state-between-reads", **info)
+            else:
+                ctx.check(True, "reads-valid-files")
+                for i, (rec, s_) in enumerate(zip(out, obspy_only)):
+                    judge(ctx, rec, s_["exp"], None, info, f"recording {i} of read() with one options dict ({s_['fmt']})")
+    ctx.nontrivial(["options-reused", [s_["fmt"] for s_ in seq], sorted(start)])
+    ctx.state(["options-reused", tuple(s_["fmt"] for s_ in seq)])
+
+
 # --------------------------------------------------------------------------------------------------
 # the real example files
 # --------------------------------------------------------------------------------------------------
@@ -1166,4 +1222,5 @@ def fam_examples(ctx, rng):
 
 FAMILIES = [("mseed-one-file", fam_mseed_one), ("mseed-three-files", fam_mseed_three), ("sac", fam_sac), ("gcf", fam_gcf),
             ("saf", fam_saf), ("minishark", fam_minishark), ("peer", fam_peer), ("corrupted", fam_corrupted),
-            ("read-routing", fam_read), ("examples", fam_examples)]
+            ("read-routing", fam_read), ("examples", fam_examples),
+            ("options-dict-reused-across-reads", fam_options_reused)]
